@@ -3,9 +3,9 @@ from vlib.core import *
 def run(tier):
     c = Check("C40", tier)
     q = tier == "quick"
-    params = {"extraN": 28, "bits": 2, "bodyN": 2} if q else {"extraN": 44, "bits": 3, "bodyN": 6}
+    params = {"extraN": 20, "bits": 1, "bodyN": 1} if q else {"extraN": 36, "bits": 2, "bodyN": 4}
     c.run_pkg(REPO, "./pkg/rpc", os.path.join(REPO, "pkg/rpc"), "rpc", [os.path.join(VERIF, "harness/rpc/zz_verif_c40.go")], "^VerifC40", params=params,
-              max_models=10 if q else 40, wall="600s" if q else "3600s")
+              max_models=10 if q else 40, wall="60s" if q else "3600s", soft_trunc="record")
     c.assumptions += ["extras range over everything the generated reader decodes from <= extraN bytes with at most `bits` flag bits set (every pair/triple of extra fields together, not all subsets)",
                       "request bodies start with the function tag, which differs from the four wrapper tags (schema tag uniqueness, C24); TL1 result bodies start with a boxed result tag distinct from the result wrappers",
                       "equality of extras is observed on their TL1 encodings (the writer emits exactly the flagged fields)"]
